@@ -11,6 +11,7 @@ image data that is not base64 text, members stored untrimmed by `Parse()` (`rawD
 record valid.  The driver evaluates the decidable part of `RecCanon` on every generated record (non-vacuity).
 -/
 import IclModel.Lemmas.RecCanon
+import IclModel.Lemmas.RecCanonE
 import IclModel.GenModel
 import IclModel.Props.C01
 namespace Icl.C01
@@ -158,5 +159,102 @@ theorem C01_canonical_nl_ascii (frb : Bool) (now : Date) (e : Enc) (hlp : e.lp =
     readFile (genModel frb now) e bytes = (f, none) :=
   C01_write_read_nl _ e f bytes hlp hw (treeWF_of_canon _ f hc)
     (fileOK_of_canon _ e he (gen_kindOK frb now) (gen_endsOK frb now) f hc) hno hcr
+
+
+/-! ### EBCDIC -/
+
+/-- canonical, rendered as text the code page carries, and not a record 52 (whose EBCDIC form mixes
+transliterated text with raw image bytes: see `C01_canonical_lp_ebcdic_partial`) -/
+def CanonSafe (m : Model) (k : Kind) (v : Vals) : Prop :=
+  RecCanon m k v ∧ (lineOf m k (some v)).all (safeB m.cm) = true ∧ k ≠ .ivData
+
+structure CanonFileE (m : Model) (f : File Vals) : Prop where
+  hdr : RecCanon m .fileHeader f.header
+  ctl : RecCanonFrom m .fileControl {} f.control
+  hdrSafe : (lineOf m .fileHeader (some f.header)).all (safeB m.cm) = true
+  ctlSafe : (lineOf m .fileControl (some f.control)).all (safeB m.cm) = true
+  cashLetters : ∀ cl ∈ f.cashLetters, CashLetterAll m (CanonSafe m) cl
+
+theorem recOK_ebcdic_all (m : Model) (e : Enc) (he : e.ebcdic = true) (hd : DigitsOK m.cm = true)
+    (hK : ∀ k, KindOK m k = true) (k : Kind) (v : Vals) (h : CanonSafe m k v) : RecOK m e (bodyLn m e) k v := by
+  obtain ⟨hc, hs, hk⟩ := h
+  have := hK k
+  simp only [KindOK, Bool.or_eq_true] at this
+  rcases this with (hf | hf) | hf
+  · exact recOK_ebcdic m e he hd k hf v hc hs
+  · exact recOK_ebcdic_key m e he hd k hf v hc hs
+  · simp only [IvKind, Bool.and_eq_true, beq_iff_eq] at hf
+    exact absurd hf.1.1.1.1.1.1.1.1.1.1.1.1.1.2 hk
+
+theorem fileOK_of_canonE (m : Model) (e : Enc) (he : e.ebcdic = true) (hd : DigitsOK m.cm = true)
+    (hK : ∀ k, KindOK m k = true) (hEnds : EndsOK m = true)
+    (f : File Vals) (h : CanonFileE m f) : FileOK m e (bodyLn m e) f := by
+  simp only [EndsOK, List.all_cons, List.all_nil, Bool.and_true, Bool.and_eq_true, beq_iff_eq, List.any_eq_true] at hEnds
+  obtain ⟨⟨⟨⟨hl1, ht1⟩, hE1⟩, ⟨⟨hl2, ht2⟩, hE2⟩⟩, ⟨st, hst, hur⟩⟩ := hEnds
+  obtain ⟨hk1, hn1⟩ := ends_facts m .fileHeader _ _ h.hdr hl1 ht1 hE1
+  obtain ⟨hk2, hn2⟩ := ends_facts m .fileControl _ _ h.ctl hl2 ht2 hE2
+  have hp1 := parse_canon m .fileHeader hl1 _ h.hdr
+  have hp2 := parse_canon_from m .fileControl hl2 _ _ h.ctl
+  have hb1 := bodyLn_ebcdic m e he .fileHeader (by simp) f.header h.hdrSafe
+  have hb2 := bodyLn_ebcdic m e he .fileControl (by simp) f.control h.ctlSafe
+  have hd1 := decode_enc m.cm _ h.hdrSafe
+  have hd2 := decode_enc m.cm _ h.ctlSafe
+  obtain ⟨rest1, hr1⟩ := render_typeFirst m.b64 (m.layout .fileHeader).write f.header ht1
+  obtain ⟨rest2, hr2⟩ := render_typeFirst m.b64 (m.layout .fileControl).write f.control ht2
+  have hkE1 : kindOfLine (bodyLn m e .fileHeader f.header) = some .fileHeader := by
+    rw [hb1]; simp only [lineOf, hr1, h.hdr.typeSet, List.map_append, tag_enc m.cm hd .fileHeader]
+    exact kindOfLine_ebcTag .fileHeader _
+  have hkE2 : kindOfLine (bodyLn m e .fileControl f.control) = some .fileControl := by
+    rw [hb2]; simp only [lineOf, hr2, h.ctl.typeSet, List.map_append, tag_enc m.cm hd .fileControl]
+    exact kindOfLine_ebcTag .fileControl _
+  refine ⟨hkE1, by rw [hb1, List.length_map]; omega, ?_, ?_, hkE2, by rw [hb2, List.length_map]; omega, ?_, ?_, ?_⟩
+  · simp only [he, if_true, hb1, hd1]
+    have := h.hdr.runes st hst hur
+    simp only [lineOf] at hn1 ⊢
+    rw [this, hn1]
+  · simp only [he, if_true, hb1, hd1]
+    exact hp1
+  · simp only [he, if_true, hb2, hd2]
+    exact hp2
+  · rw [h.ctl.typeSet]; exact tag_nonempty _
+  · intro cl hcl
+    exact cashLetterOK_of_all m e _ (CanonSafe m) (recOK_ebcdic_all m e he hd hK) cl (h.cashLetters cl hcl)
+
+theorem treeWF_of_canonE (m : Model) (f : File Vals) (h : CanonFileE m f) : TreeWF f := by
+  intro cl hcl
+  have hc := h.cashLetters cl hcl
+  obtain ⟨x, hx, _⟩ := hc.hdr
+  obtain ⟨y, hy, _⟩ := hc.ctl
+  refine ⟨⟨x, y, hx, hy⟩, hc.rnsSome, ?_⟩
+  intro b hb
+  obtain ⟨bx, hbx, _⟩ := (hc.bundles b hb).hdr
+  obtain ⟨by', hby, _⟩ := (hc.bundles b hb).ctl
+  exact ⟨bx, by', hbx, hby⟩
+
+set_option maxRecDepth 20000 in
+theorem gen_digitsOK : DigitsOK { dec := Gen.cp037Dec, repl := Gen.cp037Repl } = true := by decide
+
+/-- **C01, end to end on the regenerated model, EBCDIC, length-prefixed** (partial: files without record 52, whose
+EBCDIC form the reader decodes section by section; covered by the correspondence stream): a canonical file of
+text the regenerated CP037 table carries, accepted by the model writer, reads back as itself -/
+theorem C01_canonical_lp_ebcdic_partial (frb : Bool) (now : Date) (e : Enc) (hlp : e.lp = true) (he : e.ebcdic = true)
+    (f : File Vals) (bytes : Bytes) (hc : CanonFileE (genModel frb now) f)
+    (hbody : ∀ kr ∈ f.flatten, ∀ v, kr.2 = some v →
+      (bodyLn (genModel frb now) e kr.1 v).length = (lineOf (genModel frb now) kr.1 (some v)).length)
+    (hw : writeFile (genModel frb now) e f = some bytes) :
+    readFile (genModel frb now) e bytes = (f, none) :=
+  C01_write_read_lp _ e f bytes hlp hw (treeWF_of_canonE _ f hc) hbody
+    (fileOK_of_canonE _ e he gen_digitsOK (gen_kindOK frb now) (gen_endsOK frb now) f hc)
+
+
+/-- the same under newline framing, for files none of whose EBCDIC records holds the byte 0x0A or ends in 0x0D -/
+theorem C01_canonical_nl_ebcdic_partial (frb : Bool) (now : Date) (e : Enc) (hlp : e.lp = false) (he : e.ebcdic = true)
+    (f : File Vals) (bytes : Bytes) (hc : CanonFileE (genModel frb now) f)
+    (hw : writeFile (genModel frb now) e f = some bytes)
+    (hno : ∀ l ∈ fileLines (bodyLn (genModel frb now) e) f, (0x0A : UInt8) ∉ l)
+    (hcr : ∀ l ∈ fileLines (bodyLn (genModel frb now) e) f, dropCR l = l) :
+    readFile (genModel frb now) e bytes = (f, none) :=
+  C01_write_read_nl _ e f bytes hlp hw (treeWF_of_canonE _ f hc)
+    (fileOK_of_canonE _ e he gen_digitsOK (gen_kindOK frb now) (gen_endsOK frb now) f hc) hno hcr
 
 end Icl.C01
